@@ -535,6 +535,7 @@ type opT struct {
 	Drops   []string `json:"drops,omitempty"`
 	Old     string   `json:"old,omitempty"`
 	New     string   `json:"new,omitempty"`
+	Wrap    []string `json:"wrap,omitempty"` // control flow around the statement, outermost first: if case while func
 }
 
 // model: the tables by logical name.
@@ -1332,4 +1333,32 @@ func forUpdateTables(op opT) []string {
 		return nil
 	}
 	return []string{op.T}
+}
+
+// wrapSQL puts a statement into control flow (control-flow.md,
+// user-defined-function.md): every wrapper executes its body exactly once, so
+// the effect is that of the bare statement. Variable and function names are
+// unique per step and nesting level and declared where they are used.
+func wrapSQL(stmt string, wrap []string, step int) (string, bool) {
+	s := stmt + ";"
+	if len(wrap) > 2 {
+		return s, false
+	}
+	for i := len(wrap) - 1; i >= 0; i-- {
+		switch wrap[i] {
+		case "if":
+			s = "IF 1 = 1 THEN " + s + " END IF;"
+		case "case":
+			s = "CASE WHEN TRUE THEN " + s + " END CASE;"
+		case "while":
+			v := fmt.Sprintf("@c05w%d_%d", step, i)
+			s = "VAR " + v + " := 0; WHILE " + v + " < 1 DO " + v + " := " + v + " + 1; " + s + " END WHILE;"
+		case "func":
+			f := fmt.Sprintf("c05f%d_%d", step, i)
+			s = "DECLARE " + f + " FUNCTION () AS BEGIN " + s + " RETURN 1; END; VAR " + fmt.Sprintf("@c05r%d_%d", step, i) + " := " + f + "();"
+		default:
+			return s, false
+		}
+	}
+	return s, true
 }
